@@ -257,6 +257,18 @@ def main(argv):
          "module mo\n use ma, only: wp\n use ma, only: wp, sin\n use mb, only: cos\n use mb, only: cos => fast_cos, tan\ncontains\n subroutine inner(x)\n  real :: x\n  x = sin(x) + tan(x) + cos(x)\n  block\n   x = sin(x)\n  end block\n end subroutine inner\nend module mo\n",
          "mo", ("mo", [], [("inner", ["x"], [("block", [], [])])]), {"sin": False, "tan": False, "cos": False}),
     ]
+    def use_case(name, uses, refs):
+        src = "module mu\n" + "".join(" %s\n" % u for u in uses) + "contains\n subroutine inner(x)\n  real :: x\n  x = sin(x) + cos(x) + tan(x)\n end subroutine inner\nend module mu\n"
+        return (name, src, "mu", ("mu", [], [("inner", ["x"], [])]), refs)
+    # every way two USE statements of one module combine (wildcard, only-list, renames), in both orders
+    siblings += [
+        use_case("wildcard_then_only", ["use ma", "use ma, only: sin"], {"sin": False, "cos": True, "tan": True}),
+        use_case("only_then_wildcard", ["use ma, only: sin", "use ma"], {"sin": False, "cos": True, "tan": True}),
+        use_case("rename_then_only", ["use ma, cos => fast_cos", "use ma, only: sin"], {"sin": False, "cos": False, "tan": True}),
+        use_case("only_then_rename", ["use ma, only: sin", "use ma, tan => my_tan"], {"sin": False, "cos": True, "tan": False}),
+        use_case("only_rename_twice", ["use ma, only: sin => s1", "use ma, only: cos => c1, sin => s2"], {"sin": False, "cos": False, "tan": True}),
+        use_case("empty_only_then_only", ["use ma, only:", "use ma, only: tan"], {"sin": True, "cos": True, "tan": False}),
+    ]
     for sname, src, top, want, refs in siblings:
         cases += 1
         try:
